@@ -20,7 +20,9 @@ correspondence of harness hc07 and by the regenerated constants `Wz.Gen.Close`):
   (finding F4: `(func $f (return_call $f))` runs forever without a check), and `C07_partial`
   (programs without tail calls).
 Missing (assumed, see docs/C07.md): "promptly" in seconds, scheduling of the watcher goroutine, the
-machine code below the SSA, host functions that do not return.
+machine code below the SSA, host functions that do not return, and guest instructions that BLOCK instead of
+cycling (`memory.atomic.wait32/64`): no cycle, so no check is ever reached; hc07's "blocked" stage decides
+that case on the real code (finding F49 on the pinned tree).
 -/
 import Wz.Proofs.C07_Ctl
 import Wz.Gen.Shapes
